@@ -769,7 +769,10 @@ wrapped_interval<Number>::operator||(const wrapped_interval<Number> &x) const {
       delta =
           (m_end * wrapint(2, w)) - (m_start * wrapint(2, w)) + wrapint(1, w);
     }
-    return x | wrapped_interval<Number>(x.m_start, x.m_start + delta);
+    // x contains both end points of this but, being a wrapped
+    // interval, not necessarily everything in between: start from
+    // the join so that the result covers both arguments.
+    return join | wrapped_interval<Number>(x.m_start, x.m_start + delta);
   } else {
     return wrapped_interval<Number>::top();
   }
@@ -911,7 +914,10 @@ wrapped_interval<Number> wrapped_interval<Number>::widening_thresholds(
           (m_end * wrapint(2, w)) - (m_start * wrapint(2, w)) + wrapint(1, w);
     }
     // TODO: apply thresholds
-    return x | wrapped_interval<Number>(x.m_start, x.m_start + delta);
+    // x contains both end points of this but, being a wrapped
+    // interval, not necessarily everything in between: start from
+    // the join so that the result covers both arguments.
+    return join | wrapped_interval<Number>(x.m_start, x.m_start + delta);
   } else {
     return wrapped_interval<Number>::top();
   }
